@@ -1272,7 +1272,21 @@ def bool_eval(n, val, ser):
         if n.op == "||":
             return bool_eval(n.children[0], val, ser) or bool_eval(n.children[1], val, ser)
         if n.op in ("<=", "<", ">=", ">", "==", "!="):
-            a, b = val(ser.expr(n.children[0])), val(ser.expr(n.children[1]))
+            def opval(x, depth=0):
+                # an operand computed by a folded helper with one result is that result; `c ? a : b` takes the arm the
+                # valuation selects; a value-initialised object (`P{}`) is zero
+                v_ = val(ser.expr(x))
+                if v_ is not None or depth > 6:
+                    return v_
+                y = std_unwrap(x)
+                if y.d.get("inlined") and len(y.d.get("rets") or []) == 1:
+                    return opval(y.fn.node(y.d["rets"][0]), depth + 1)
+                if y.kind == "ConditionalOperator" and len(y.children) == 3:
+                    return opval(y.children[1] if bool_eval(y.children[0], val, ser) else y.children[2], depth + 1)
+                if y.kind in ("CXXScalarValueInitExpr", "ImplicitValueInitExpr") or (y.kind in ("InitListExpr", "CXXFunctionalCastExpr") and ser.expr(y) in ("{}", "0")):
+                    return 0
+                return None
+            a, b = opval(n.children[0]), opval(n.children[1])
             if a is None or b is None:
                 raise KeyError(ser.expr(n))
             return {"<=": a <= b, "<": a < b, ">=": a >= b, ">": a > b, "==": a == b, "!=": a != b}[n.op]
@@ -1731,9 +1745,10 @@ def check_C07(ctx, unit, thorough=False):
         T_ML, T_MR = "h(%s).subtree_max" % T_L, "h(%s).subtree_max" % T_R
         problems = set()
         n_cases = 0
-        for U, ML, MR, OLD in itertools.product(range(3), repeat=4):
+        # (the values straddle zero: a value-initialised P{} is not the identity of max for a signed bound type)
+        for U, ML, MR, OLD in itertools.product((-1, 0, 1), repeat=4):
             for Lp, Rp in ((0, 0), (0, 1), (1, 0), (1, 1)):
-                if (not Lp and ML) or (not Rp and MR):
+                if (not Lp and ML != -1) or (not Rp and MR != -1):
                     continue
                 n_cases += 1
 
@@ -1745,7 +1760,40 @@ def check_C07(ctx, unit, thorough=False):
                         t = sr.expr(x)
                         if t in env:
                             return env[t]
-                        return {T_U: U, T_OLD: OLD, T_L: Lp, T_R: Rp, T_ML: ML if Lp else None, T_MR: MR if Rp else None}.get(t)
+                        v_ = {T_U: U, T_OLD: OLD, T_L: Lp, T_R: Rp, T_ML: ML if Lp else None, T_MR: MR if Rp else None}.get(t)
+                        if v_ is None and xs.kind == "ConditionalOperator" and xs.id != x.strip().id:
+                            return flow.sem_eval(xs, leaf)      # (reached through temporaries sem_eval does not look through)
+                        if v_ is None and t not in (T_ML, T_MR):
+                            # a value computed by a folded helper with one result (`max_of(left)`) is that result; a
+                            # value-initialised bound (`P{}`) is zero
+                            if xs.d.get("inlined") and len(xs.d.get("rets") or []) == 1:
+                                return flow.sem_eval(f.node(xs.d["rets"][0]), leaf)
+                            if xs.kind in ("CXXScalarValueInitExpr", "ImplicitValueInitExpr") or (
+                                    xs.kind in ("InitListExpr", "CXXFunctionalCastExpr") and t in ("{}", "0")):
+                                return 0
+                            if xs.kind == "DeclRefExpr" and xs.get("local"):
+                                # the bound parameter of a folded helper (`node` of max_of(left)) is its argument
+                                ini = RA.local_inits(f).get(xs.d["d"])
+                                if ini is not None and not RA._reassigned(f, xs.d["d"]) and std_unwrap(ini).id != xs.id:
+                                    return flow.sem_eval(ini, leaf)
+                            if xs.kind == "MemberExpr" and xs.get("m") == "subtree_max":
+                                # h(x).subtree_max where x is the bound parameter of a folded helper: whose hook it is
+                                calls_ = [c_ for c_ in xs.walk() if c_.is_call() and c_.callee and c_.callee["n"] == "h" and c_.args]
+                                if len(calls_) == 1:
+                                    a_ = std_unwrap(calls_[0].args[-1])
+                                    for _hop in range(6):
+                                        if a_.kind == "DeclRefExpr" and a_.get("local"):
+                                            ini = RA.local_inits(f).get(a_.d["d"])
+                                            if ini is not None and not RA._reassigned(f, a_.d["d"]):
+                                                a_ = std_unwrap(ini)
+                                                continue
+                                        break
+                                    ta = sr.expr(a_)
+                                    if ta == T_L:
+                                        return ML if Lp else None
+                                    if ta == T_R:
+                                        return MR if Rp else None
+                        return v_
                     return leaf
 
                 def transfer(n, st):
